@@ -1,12 +1,15 @@
 """C10 — blob exchange: honest transfer completes, lying peers never poison (part decided).
 
+BOUNDED (real client, server, BlobFile, HashBlobWriter on a real loop over an in-memory wire; not counted as proved):
+transfer.honest (blobs x re-chunkings x sequences), transfer.slow later transfer (a later transfer outlasting the idle time-out),
+transfer.lying server / lying client (misbehaviour catalogues, time-outs).
+KNOWN FINDINGS: C10-F1 body bytes re-parsed as a header; C10-F2 stale announced length blocks honest peers.
 DEDUCTIVE: the real AST of lbry/blob_exchange/{client,server,serialization}.py and AbstractBlob.set_length is symbolically executed
-against duck-typed transports / futures / writers / blob managers.  json: dumps of a structure with symbolic leaves is an unknown
-ASCII text t with loads(t) == the structure; loads of ARBITRARY text is an uninterpreted parser that raises ValueError or returns a
-value from a catalogue of the shapes the code can tell apart.
+against duck-typed transports / futures / writers / blob managers.  json: dumps of symbolic structures is an unknown ASCII text t with
+loads(t) == the structure; loads of ARBITRARY text is an uninterpreted parser: ValueError or a value from a catalogue of shapes.
  server.handle_request: blob bytes leave only for a blob with get_is_verified(), right after the single header of the response,
-   which names exactly blob.blob_hash and blob.length (not the requested hash); an unverified blob is neither announced nor sent;
-   availability is truthful; a failed / timed-out transfer closes; the standard request for a held blob is fully answered.
+   which names exactly blob.blob_hash and blob.length; an unverified blob is neither announced nor sent; availability is truthful;
+   a failed / timed-out transfer closes; the standard request for a held blob is fully answered.
  server.data_received: [oversized] len(buffer)+len(fragment) >= 1200 closes, nothing parsed/handled/answered; [framing] for an
    ARBITRARY buffer and fragment below the limit: no '}' -> buffered; else ALL bytes so far are parsed as ONE request: invalid JSON /
    no request key closes, a well-formed request reaches handle_request once with exactly its parts, ill-typed values raise.
@@ -14,16 +17,15 @@ value from a catalogue of the shapes the code can tell apart.
  client.data_received[header step]: ARBITRARY buffer and fragment, loads uninterpreted, scan loop by invariant: either everything is
    still buffered and nothing changed, or a response was recognised; a delivered response is what the '}'-terminated prefix in front
    of the rest parses to, never names another blob, alone sets the length, and exactly the bytes after it, capped, reach the writer.
- client.data_received[honest header ..]: the REAL serialised header (concrete, real json, loop unrolled) cut at many positions and
-   followed by an ARBITRARY body fragment: recognised, exactly the body (capped) reaches the writer.
- client.data_received[body after bare header]: first body fragment after a lone header is written capped -- unless it starts with a
-   text that parses as a response header (known finding C10-F1, excluded by the precondition, reproduced by transfer.honest).
+ client.data_received[honest header ..]: the REAL serialised header (concrete text, real json) cut at many positions and followed by
+   an ARBITRARY body fragment: recognised, exactly the body (capped) reaches the writer.
+ client.data_received[body after bare header]: first body fragment after a lone header is written capped -- unless it starts with
+   a text that parses as a response header (known finding C10-F1, excluded here, reproduced by transfer.honest).
  client.data_received[not expecting]: unsolicited bytes close; bytes on a closing transport are dropped.
- client._download_blob: success only if no wrong hash/length was announced, rate accepted, both futures completed, not closed
-   meanwhile; the honest answer succeeds; every failure closes transport and writer; one request naming exactly our hash.
-BOUNDED (real client, server, BlobFile, HashBlobWriter on a real loop over an in-memory re-chunking wire; not counted as proved):
-transfer.honest (blobs x re-chunkings x sequences), transfer.lying server / lying client (misbehaviour catalogues, time-outs).
-KNOWN FINDINGS: C10-F1 body bytes re-parsed as a header; C10-F2 stale announced length blocks honest peers.
+ server.close_on_idle: against the handler's side of the two events (0..2 transfers, fast or slow; wait_for = completes or timer
+   fires): the idle timer never runs during a transfer, both events are clear whenever it is armed, idle closes exactly once.
+ client._download_blob: success only if no wrong hash/length was announced, rate accepted, both futures completed, not closed;
+   the honest answer succeeds; every failure closes transport and writer; one request naming exactly our hash.
 """
 import asyncio
 import json
@@ -1423,6 +1425,126 @@ SERVER_GARBAGE = [b'}', b'{}', b'{"zzz": 1}', b'[]', b'5}', b'null}', b'\xff\xfe
                   b'{"requested_blobs": ["%s", "%s"], "lbrycrd_address": true}' % (b'ab' * 48, b'cd' * 48), b'{"a": {"requested_blob": "x"}}']
 
 
+# ====================================================================== server: idle watchdog (close_on_idle)
+
+class Blocked(Exception):
+    """symbolic side only: the awaiting coroutine waits for something nobody will ever complete"""
+
+
+async def block_forever():
+    """wait for something that never happens (natively: until the surrounding wait_for cancels it)"""
+    await asyncio.get_running_loop().create_future()
+
+
+@model_for(block_forever)
+def _m_block_forever(interp, st, args, kwargs):
+    yield st, Raise(VExc(Blocked, []))
+
+
+def _m_wait_for_timer(interp, st, args, kwargs):
+    """asyncio.wait_for for the watchdog proof: the awaited thing completes, or -- when it would wait for ever -- the timer fires"""
+    for s1, r in interp.bm.do_await(interp, st, args[0]):
+        if isinstance(r, Raise) and r.exc.cls is Blocked:
+            yield s1, Raise(VExc(asyncio.TimeoutError, []))
+        else:
+            yield s1, r
+
+
+class WatchedEvent(FakeEvent):
+    """asyncio.Event whose wait(), when it has to block, hands control to the environment (the request handler's side)"""
+
+    def __init__(self, world, name):
+        self.flag = False
+        self.world = world
+        self.name = name
+
+    async def wait(self):
+        if self.flag:
+            return True
+        await self.world.watchdog_blocks_on(self.name)
+        return True
+
+
+class HandlerSide:
+    """rely: what handle_request does to the two events while the watchdog is blocked.  A connection serves `transfers` transfers:
+    each sets started_transfer when it begins and transfer_finished when it ends (handle_request's try/finally); `fast` transfers
+    end before the watchdog runs again, `slow` ones last longer than the idle time-out.  After the last one nothing happens any more."""
+
+    def __init__(self, transfers, fast, slow):
+        self.transfers, self.fast, self.slow = transfers, fast, slow
+        self.begun = 0
+        self.in_progress = False
+        self.log = []
+        self.started_event = WatchedEvent(self, 'started_transfer')
+        self.finished_event = WatchedEvent(self, 'transfer_finished')
+
+    def begin_transfer(self):
+        self.begun += 1
+        self.in_progress = True
+        self.started_event.set()
+        if self.fast:
+            self.end_transfer()
+
+    def end_transfer(self):
+        self.in_progress = False
+        self.finished_event.set()
+
+    async def watchdog_blocks_on(self, name):
+        self.log.append((name, self.in_progress, self.started_event.flag, self.finished_event.flag))
+        if name == 'started_transfer':          # the only wait the real code puts under the idle timer
+            if self.in_progress:
+                if self.slow:
+                    await block_forever()       # the timer fires before the transfer ends
+                self.end_transfer()
+            if self.begun < self.transfers:
+                self.begin_transfer()
+                return
+            await block_forever()               # idle for good
+        else:
+            if not self.in_progress:
+                await block_forever()           # nobody will set it
+            self.end_transfer()
+
+
+@proof("C10", "server.close_on_idle")
+class ServerIdleWatchdog:
+    """the idle watchdog against the handler's side of the two events, for 0..2 transfers on a connection, fast or slow: while a
+    transfer is in progress the watchdog waits for transfer_finished and never sits on the idle timer; whenever it arms the idle
+    timer both events are clear (so EVERY transfer suspends it, not only the first); every transfer is served to its end; when the
+    connection has been idle for idle_timeout it closes exactly once and the loop ends"""
+    inputs = dict(transfers=TInt(0, 2), fast=TBool(), slow=TBool())
+    models = {asyncio.wait_for: _m_wait_for_timer}
+
+    async def run(transfers, fast, slow):
+        world = HandlerSide(transfers, fast, slow)
+        server = BlobServerProtocol(None, FakeBlobManager(None, []), 'bServerAddress', 0.02, 5.0)
+        server.transport = EventTransport()
+        server.peer_address_and_port = '10.0.0.2:4444'
+        server.started_transfer, server.transfer_finished = world.started_event, world.finished_event
+        hung = False
+        try:
+            await asyncio.wait_for(server.close_on_idle(), 1.0)
+        except asyncio.TimeoutError:
+            hung = True
+        return hung, server.transport.events, world.log, world.begun, world.in_progress
+
+    def ensures_idle_timer_never_runs_during_a_transfer(result):
+        return all(not in_progress for name, in_progress, started, finished in result[2] if name == 'started_transfer')
+
+    def ensures_both_events_clear_whenever_the_idle_timer_is_armed(result):
+        return all(not started and not finished for name, in_progress, started, finished in result[2] if name == 'started_transfer')
+
+    def ensures_every_transfer_served_to_its_end_then_closed_once(transfers, result):
+        hung, events, log, begun, in_progress = result
+        return not hung and events == [('close',)] and begun == transfers and not in_progress
+
+    def samples():
+        for transfers in (0, 1, 2):
+            for fast in (False, True):
+                for slow in (False, True):
+                    yield dict(transfers=transfers, fast=fast, slow=slow)
+
+
 # ====================================================================== bounded stand-ins: whole connections (native only)
 # Everything below runs the REAL BlobExchangeClientProtocol, BlobServerProtocol, BlobFile / BlobBuffer and HashBlobWriter on a real
 # asyncio loop; only the socket pair is replaced by an in-memory wire that re-chunks the byte stream.  Never counted as proved.
@@ -1488,8 +1610,9 @@ def chunks_of(stream, header_len, pattern):
 class LoopFacade:
     """the loop as blobs see it: the running loop, plus an in-memory sendfile (the real one needs a socket transport)"""
 
-    def __init__(self, loop):
+    def __init__(self, loop, pauses=()):
         self.loop = loop
+        self.pauses = list(pauses)      # seconds each successive sendfile pauses in the middle of the body
 
     def create_task(self, coro):
         return self.loop.create_task(coro)
@@ -1504,7 +1627,16 @@ class LoopFacade:
         if transport.is_closing():
             raise ConnectionResetError('closed')
         data = handle.read(count)
-        transport.write(data)
+        pause = self.pauses.pop(0) if self.pauses else 0
+        if pause:
+            # a slow transfer: half of the body, a pause, the rest (the socket buffer of a slow peer drains late)
+            transport.write(data[:len(data) // 2])
+            await asyncio.sleep(pause)
+            if transport.is_closing():
+                raise ConnectionResetError('closed')
+            transport.write(data[len(data) // 2:])
+        else:
+            transport.write(data)
         return len(data)
 
 
@@ -1774,6 +1906,48 @@ class HonestTransfer:
             yield dict(names=['2 MiB'], c2s='glued', s2c=s2c, on_disk=s2c in ('glued', 'k=1460'))
         for s2c in ('ones', 'hdr-1|', 'hdr ones|body', 'mid hdr', 'k=7', 'k=64'):
             yield dict(names=['64 KiB'], c2s='k=7', s2c=s2c, on_disk=False)
+
+
+@proof("C10", "transfer.slow later transfer")
+class SlowLaterTransfer:
+    """BOUNDED stand-in (run-time contract check, no deductive part).  Several blobs on ONE connection from the real server with
+    idle_timeout 0.2 s and transfer_timeout 3 s; chosen transfers pause 0.6 s in the middle of the body (longer than the idle
+    time-out, shorter than the transfer time-out): a transfer in progress is never cut by the idle watchdog -- every blob, the later
+    ones included, arrives verified and byte-identical."""
+    bounded_only = True
+    inputs = dict(pauses=TList(TInt(0, 1)), s2c=TStr())
+    note = "2-3 blobs on one connection, the first / second / third transfer pausing 0.6 s mid-body; re-chunkings glued, 7-byte"
+
+    async def run(pauses, s2c):
+        loop = asyncio.get_running_loop()
+        tmp = tempfile.mkdtemp(prefix='c10-')
+        try:
+            os.mkdir(os.path.join(tmp, 'server'))
+            names = ['text', 'braces', 'sd blob'][:len(pauses)]
+            manager = ServerSide(LoopFacade(loop, [0.6 * p for p in pauses]), os.path.join(tmp, 'server'))
+            for name in names:
+                await manager.hold(BLOBS[name])
+            client = new_real_client(loop)
+            server = BlobServerProtocol(loop, manager, 'bServerAddress', idle_timeout=0.2, transfer_timeout=3.0)
+            conn = Connection(client, server, 'glued', s2c)
+            out = []
+            for name in names:
+                blob = new_client_blob(LoopFacade(loop), blob_hash_of(BLOBS[name]), None)
+                ok, seconds = await download(conn, client, blob)
+                out.append((name, ok, blob.get_is_verified(), stored_bytes(blob) == BLOBS[name]))
+                blob.close()
+            server.connection_lost(None)
+            return out
+        finally:
+            shutil.rmtree(tmp, ignore_errors=True)
+
+    def ensures_every_blob_arrives_verified_and_identical(result):
+        return all(ok and verified and identical for name, ok, verified, identical in result)
+
+    def samples():
+        yield dict(pauses=[0, 1], s2c='glued')
+        yield dict(pauses=[1, 1], s2c='k=7')
+        yield dict(pauses=[0, 0, 1], s2c='glued')
 
 
 # ---- lying server
@@ -2123,10 +2297,12 @@ TRUSTED = [
 NOT_DECIDED = [
     "every time-out clause (peer_timeout, idle_timeout, transfer_timeout): deductively time-outs appear only as possible outcomes of "
     "awaits; the stand-ins measure them with 0.05 s time-outs and 2 s scheduling slack",
-    "'keeps serving others' and whole-connection behaviour (connection_made/lost, close_on_idle, download_blob wrapper, request_blob, "
+    "'keeps serving others' and whole-connection behaviour (connection_made/lost, download_blob wrapper, request_blob, "
     "BlobDownloader): only the bounded stand-ins exercise several requests and connections",
     "liveness of header recognition for headers other than the three concrete honest ones (for arbitrary text only safety is proved: "
     "what is recognised is the parse of the prefix in front of the rest); first-ness of the recognised prefix rests on the JSON grammar",
+    "close_on_idle is proved against a model of the handler's side (each transfer sets started_transfer at its start and "
+    "transfer_finished at its end, at most 2 transfers, no two transfers overlapping); real durations only in the stand-ins",
     "the misbehaviour catalogue at every message position and all re-chunkings of whole transfers: bounded stand-ins only",
     "JSON values outside the two catalogues of shapes (e.g. nested containers as leaf values)",
     "resource use of a peer that never completes a header (the client buffer is unbounded until the time-out; each fragment re-scans it)",
